@@ -9,6 +9,11 @@ CHECKS = {
              note="asan build of the headers with a checking allocator; 64-bit state hashes; bounds: bitmap depth 2-3 from empty + depth 1-2 from 4096 seeds, HTAB depth 7-9 (3 keys) / 5-7 (5 keys) x 4 hash modes, VARR depth 5-7, DLIST depth 6-8 (5 nodes)",
              ref="§3 C19"),
 }
+CHECKS["C12"] = dict(cat="fault_enumeration", technique="exhaustive enumeration of inputs over small alphabets and of all single-position faults of their encodings, plus crafted element sequences, against the real encoder/decoder",
+             text="Round trip is checked for every string over 2/3/4-symbol alphabets up to the tier's length and for boundary-length families; every truncation, every one-byte extension and every single-byte substitution of the encodings must be rejected; "
+                  "every sequence of up to 2-3 crafted stream elements (lengths/indexes at the format's boundaries, after fillers that park the cursor near the buffer end) must be rejected without touching memory outside the decoder's block.",
+             note="memory-safety oracle = guard pages around the decoder block + tail canary (prod build) and ASan (asan build); accesses inside the block are not judged; one known finding (equivalent back-reference index) is listed in KNOWN_FINDINGS.txt",
+             ref="§3 C12")
 NOT_YET = {}
 def main():
     props = [json.loads(l) for l in open(os.path.join(VERIF, "properties.jsonl"))]
@@ -24,7 +29,7 @@ def main():
             na.append(dict(property_id=pid, reason=NOT_YET.get(pid, "check designed in DESIGN.md but not built yet; not claimed until it runs clean on the unchanged tree")))
     m = dict(version=1, setup_cmd="python3 core/setup.py",
              hooks=dict(guard="MIR_VERIF", enable="checks compile /repo sources themselves with -DMIR_VERIF (core/build.py); no hook is currently present in /repo",
-                        baseline_off_cmd="cd /repo && cmake -G Ninja -B _build >/dev/null && cmake --build _build && ctest --test-dir _build -j8 --timeout 900",
+                        baseline_off_cmd="cd /repo && cmake -G Ninja -B _build >/dev/null && (cmake --build _build -- -k 0 || true) && ctest --test-dir _build -j8 --timeout 900",
                         source_commits=[], add_only=True),
              engines=[dict(name="vp", path="core/", serves_properties=sorted(CHECKS), kind_free_text="hand-written exhaustive enumerator / BFS explorer over the real code (core/vp.c, core/bfs.h, core/runner.py)")],
              checks=checks, not_applicable=na,
